@@ -18,7 +18,7 @@ package datatransfer
 //@ interface Message
 //@   pure IsRequest, IsRestart, IsNew, IsUpdate, IsPaused, IsCancel, TransferID
 //@ interface Request
-//@   pure IsPull, IsVoucher, VoucherType, Voucher, TypedVoucher, BaseCid, Selector, IsRestartExistingChannelRequest, RestartChannelId
+//@   pure IsPull, IsVoucher, VoucherType, Voucher, TypedVoucher, BaseCid, Selector, IsRestartExistingChannelRequest, RestartChannelId, EmptyVoucher
 //@ interface Response
 //@   pure IsValidationResult, IsComplete, Accepted, VoucherResultType, VoucherResult, EmptyVoucherResult
 
